@@ -24,7 +24,7 @@ func (e *Exec) doCall(st *State, fr *Frame, b *ssa.BasicBlock, i int, in *ssa.Ca
 		}
 		v := &Value{T: in.Type(), L: L}
 		if len(res) == 1 {
-			v.Fn, v.Bnd = res[0].Fn, res[0].Bnd
+			v.Fn, v.Bnd, v.Tag = res[0].Fn, res[0].Bnd, res[0].Tag
 		}
 		fr2.vals[in] = v
 		e.runFrom(st, fr2, b, i+1)
